@@ -367,6 +367,8 @@ class Ex:
     def oblige(self, name, goal, kind="prove", note=""):
         if isinstance(goal, bool):
             goal = z3.BoolVal(goal)
+        if kind == "prove" and z3.is_false(goal):
+            kind = "forbidden"     # reaching this point at all is the violation (e.g. an exception that must not escape)
         self.obl.append(Obligation(name, list(self.pc), goal, self.path_tag(), kind, note))
 
     def path_tag(self):
